@@ -2,7 +2,7 @@
 \* (checks/C11.py rewrites Strength / NSample / EPs for the thorough tier)
 SPECIFICATION GenSpec
 CONSTANTS
-  EPs = {"station.ingest", "station.wrap", "transport.params", "regproc", "api", "dnsreg", "responder", "msgformat", "rdatatxt"}
+  EPs = {"station.ingest", "station.wrap", "transport.params", "dtls.connect", "regproc", "api", "dnsreg", "responder", "msgformat", "rdatatxt"}
   Strength = 2
   Thin = FALSE
   MissingGuards = {}
